@@ -8,6 +8,4 @@ import CruxVerif.Props.C14
 #print axioms Props.C14.C14_sound_partial
 #print axioms Props.C14.C14_full_false
 #print axioms Props.C14.stale_content_type_exact
-#print axioms Props.C14.modelBody_eq_expected
-#print axioms Props.C14.unknown_length_body_dropped_exact
-#print axioms Props.C14.C14_full_false_dropped
+#print axioms Props.C14.unknown_length_body_sent
